@@ -891,8 +891,46 @@ fn digit_lattice(rng: &mut Rng, tier: &str, emit: Emit) {
 
 const FMT_SPECS: &[&str] = &["S20.n.0.0.0.-", "S20.n.0.1.0.-", "S20.n.1.0.0.-", "S20.n.1.1.0.-", "S20.n.0.0.1.8", "S20.n.0.1.1.10", "S20.n.1.1.1.12", "S20.n.0.0.0.12", "S20.l.0.0.0.12", "S20.r.0.0.0.12", "S20.c.0.0.0.12", "S2a.l.0.0.0.12", "S2a.c.0.0.0.13", "S5f.r.1.1.0.20", "S20.n.0.0.0.1", "S23.l.0.0.0.1", "S30.l.0.0.0.9", "S20.l.0.0.1.9", "S20.c.1.1.1.30", "S20.n.0.0.0.40", "S20.n.0.1.0.40", "Se9.c.0.0.0.11", "S20.c.0.1.0.7", "S2d.r.1.0.0.3", "S20.n.0.1.1.200", "S20.l.0.1.0.140"];
 
+/// decimal numerals at digit-count boundaries on long heap vectors: lengths `n` at which `2^n` lies just below or just above a
+/// power of ten (where a digit-count estimate from the bit length goes wrong first), with the values `2^n - 1`, `2^(n-1)`,
+/// `10^k - 1`, `10^k`, `10^k + 1`. Compared with the L0 numeral only (`fmtL`).
+fn decimal_boundaries(rng: &mut Rng, tier: &str, emit: Emit) {
+    let nmax = if tier == "thorough" { 4400 } else { 2300 };
+    let l2 = std::f64::consts::LOG10_2;
+    for n in 130..=nmax {
+        let x = n as f64 * l2;
+        let fr = x - x.floor();
+        let near = fr < 0.004 || fr > 0.996;
+        if !(near || (n <= 400 && n % 7 == 0) || rng.chance(1, 400)) {
+            continue;
+        }
+        let k = x.floor() as usize;                     // 10^k <= 2^n (roughly)
+        let mut vals: Vec<Vec<bool>> = vec![vec![true; n], { let mut b = vec![false; n]; b[n - 1] = true; b }];
+        for kk in [k, k + 1] {
+            let mut ds = vec![0u32; kk + 1];
+            ds[0] = 1;                                   // 10^kk
+            let p = bits_of_digits(&ds, 10, n + 8);
+            let nines = bits_of_digits(&vec![9u32; kk], 10, n + 8);       // 10^kk - 1
+            let mut p1 = p.clone();
+            p1[0] = true;                                // 10^kk + 1
+            for b in [p, nines, p1] {
+                let sig = b.iter().rposition(|x| *x).map(|i| i + 1).unwrap_or(0);
+                if sig <= n + 8 {
+                    vals.push(b[..sig.max(1)].to_vec());
+                }
+            }
+        }
+        for bits in vals {
+            let ty = ty_of(if rng.chance(1, 2) { "D" } else { "A" });
+            let v = vec_token(&ty, &bits, rng.below(2), true);
+            emit(line("fmtL", &[&v, "d"]));
+        }
+    }
+}
+
 fn gen_c14(rng: &mut Rng, tier: &str, emit: Emit) {
     digit_lattice(rng, tier, emit);
+    decimal_boundaries(rng, tier, emit);
     // whole strings under format specs (#, +, 0, width, fill, alignment) for all five traits
     for ty in TYPES {
         for _ in 0..scale(tier, 12) {
